@@ -1028,3 +1028,17 @@ def diamond_chain(rng, n=None):
     if kind == "use-after-call":
         L += ["leaf:", "addi a0, a0, 1", "ret"]
     return "\n".join(L) + "\n"
+
+
+def zero_reg_prog(rng):
+    """instructions that TARGET x0 with a result the value analysis can compute (from constants, from a tracked stack slot,
+    through every rule), each directly followed by instructions that READ x0: x0 is zero whatever was 'written' to it"""
+    L = ["main:", "addi sp, sp, -16", "li t0, %d" % rng.randrange(1, 50), "li t1, %d" % rng.randrange(1, 50), "sw t0, 4(sp)"]
+    for _ in range(rng.randrange(2, 6)):
+        L.append(rng.choice(["addi zero, t0, %d" % rng.randrange(1, 9), "add zero, t0, t1", "lw zero, 4(sp)", "li zero, %d" % rng.randrange(1, 99), "mv zero, t1",
+                             "sub x0, t1, t0", "slli zero, t0, 2", "ori x0, t0, 3", "lui zero, 5", "xor zero, t0, t1", "neg zero, t0", "lbu zero, 4(sp)"]))
+        for _ in range(rng.randrange(1, 3)):
+            L += rng.choice([["li a7, 1"], ["addi a1, x0, %d" % rng.randrange(0, 9)], ["neg a2, t0"], ["sub a3, x0, t1"], ["sw zero, 8(sp)", "lw a4, 8(sp)"],
+                             ["add a5, zero, t0"], ["mv a6, zero"], ["slt t3, x0, t0"], ["or t4, zero, zero"], ["seqz t5, zero"]])
+    L += ["li a0, 0", "add a0, a0, a1", "li a7, 1", "ecall", "addi sp, sp, 16", "li a7, 10", "ecall"]
+    return "\n".join(L) + "\n"
